@@ -130,6 +130,9 @@ func (e *Env) resolveType(x ast.Expr) types.Type {
 		if x.Name == "any" {
 			return types.NewInterfaceType(nil, nil)
 		}
+		if x.Name == "Int" {
+			return mathIntType
+		}
 		for _, p := range []*types.Package{e.pkg, e.w.rootPkg} {
 			if p == nil {
 				continue
@@ -315,6 +318,12 @@ func (e *Env) constTerm(v constant.Value, t types.Type, hint types.Type) Term {
 	case constant.String:
 		return Term{smtString(constant.StringVal(v)), "String", t}
 	case constant.Int:
+		if t == mathIntType {
+			if i, ok := constant.Int64Val(v); ok && i < 0 {
+				return Term{fmt.Sprintf("(- %d)", -i), "Int", t}
+			}
+			return Term{v.ExactString(), "Int", t}
+		}
 		b, ok := t.Underlying().(*types.Basic)
 		if !ok || b.Info()&types.IsInteger == 0 {
 			panic(unsupported(fmt.Sprintf("integer constant used at type %s", t)))
@@ -613,6 +622,42 @@ func (e *Env) call(x *ast.CallExpr, hint types.Type) Term {
 		v := e.tr(arg(0), nil)
 		t := e.evalType(arg(1))
 		return Term{fmt.Sprintf("(= (i-tag %s) %d)", v.S, w.reg.tagOf(t)), "Bool", boolT}
+	case "dynType": // dynamic type tag of an interface value (0 = nil interface)
+		v := e.tr(arg(0), nil)
+		if v.Sort != "Iface" {
+			panic(unsupported("dynType of non-interface"))
+		}
+		return Term{"(i-tag " + v.S + ")", "Int", mathIntType}
+	case "typeTag": // tag of a concrete type
+		return Term{fmt.Sprint(w.reg.tagOf(e.evalType(arg(0)))), "Int", mathIntType}
+	case "zeroExcept": // zeroExcept(structValue, "F1", ...): every other field holds its zero value
+		v := e.tr(arg(0), nil)
+		st, ok := v.T.Underlying().(*types.Struct)
+		if !ok {
+			panic(unsupported("zeroExcept of non-struct"))
+		}
+		skip := map[string]bool{}
+		for _, a := range x.Args[1:] {
+			lit, ok := a.(*ast.BasicLit)
+			if !ok {
+				panic(unsupported("zeroExcept: field names must be string literals"))
+			}
+			n, _ := strconv.Unquote(lit.Value)
+			skip[n] = true
+		}
+		idx := w.reg.structIndex(st)
+		var cs []string
+		for i := 0; i < st.NumFields(); i++ {
+			if skip[st.Field(i).Name()] {
+				delete(skip, st.Field(i).Name())
+				continue
+			}
+			cs = append(cs, fmt.Sprintf("(= (St%d_f%d %s) %s)", idx, i, v.S, w.reg.zero(st.Field(i).Type())))
+		}
+		for n := range skip {
+			panic(unsupported("zeroExcept: no field " + n))
+		}
+		return Term{and(cs...), "Bool", boolT}
 	case "fresh":
 		v := e.tr(arg(0), nil)
 		return Term{"(> " + w.refOf(v) + " " + e.W0 + ")", "Bool", boolT}
@@ -697,7 +742,14 @@ func (e *Env) call(x *ast.CallExpr, hint types.Type) Term {
 		v := e.tr(arg(0), nil)
 		return Term{w.refOf(v), "Int", nil}
 	case "allocBytes":
-		return Term{e.st().A, "Int", nil}
+		return Term{e.st().A, "Int", mathIntType}
+	case "heapVer":
+		return Term{e.st().H, "Int", mathIntType}
+	case "bytesVal": // abstract content of a byte slice in the current state
+		b := e.tr(arg(0), nil)
+		m := w.reg.elemMem(types.Typ[types.Byte])
+		w.reg.declareUFraw("bytesval", fmt.Sprintf("(Array %s (_ BitVec 8)) %s %s", bv64, bv64, bv64), "Int")
+		return Term{fmt.Sprintf("(uf_bytesval %s (s-off %s) (s-len %s))", sel(e.memTerm(m), "(s-arr "+b.S+")"), b.S, b.S), "Int", mathIntType}
 	case "watermark":
 		return Term{e.st().W, "Int", nil}
 	case "toInt": // mathematical value of a non-negative machine integer (ghost arithmetic only)
